@@ -60,6 +60,12 @@ pub const READ_METHODS: &[&str] = &[
     "map", "map_err", "and_then", "ok_or", "ok_or_else", "ok", "is_some", "is_none", "is_ok", "is_err", "unwrap",
     "unwrap_unchecked", "unwrap_or", "unwrap_or_else", "expect", "zip", "collect", "into_iter", "by_ref", "next",
     "next_back", "rev", "count", "filter", "enumerate", "copied", "cloned", "chain", "fold", "all", "any", "contains",
+    "map_or", "map_or_else", "is_some_and", "is_none_or", "is_ok_and", "is_err_and", "unwrap_or_default", "or", "or_else", "and", "xor",
+    "filter_map", "flat_map", "flatten", "skip", "take_while", "skip_while", "step_by", "peekable", "fuse", "inspect",
+    "last", "nth", "position", "find_map", "sum", "product", "min_by", "max_by", "min_by_key", "max_by_key", "for_each", "try_fold",
+    "size_hint", "then", "then_some", "as_deref", "unzip", "partition", "cycle", "scan", "map_while",
+    "leading_zeros", "trailing_zeros", "abs_diff", "div_ceil", "checked_div", "saturating_mul", "wrapping_mul", "overflowing_add",
+    "overflowing_sub", "is_zero",
     // hashing, comparison, cloning of user data through shared references
     "build_hasher", "hash", "finish", "borrow", "eq", "ne", "cmp", "partial_cmp", "clone",
     // MaybeUninit / raw pointers, reading side
